@@ -1,6 +1,7 @@
 package props
 
 import (
+	"fmt"
 	"regexp"
 
 	"kverif/core"
@@ -136,6 +137,42 @@ func c16Rules(tier string) []Rule {
 			return append(rs, core.InstrPresent(w, id, "PROV", inner, `^return \(utils/node\.GetCondition\(.*, \$0\.ConditionType\)\.Status == \$0\.ConditionStatus\)$`, 1,
 				"a policy matches when the node's condition of the policy's type has the policy's status")...)
 		}},
+		// a condition the node does not report is the empty condition (status "", never equal to a policy's status) —
+		// only a reported condition of the requested type is ever handed back
+		core.Custom{ID: "C16.PROV5", Kind: "PROV", Run: func(w *core.World, id string) []core.Result {
+			const gc = "utils/node.GetCondition"
+			fn := w.Fn(gc)
+			if fn == nil {
+				return []core.Result{core.Anchor(id, "PROV", gc)}
+			}
+			var out []core.Result
+			nz, nc := 0, 0
+			for _, s := range w.ReturnSinks(fn, core.RetAny) {
+				r := w.RenderInstr(s.Ret)
+				switch {
+				case r == "return zero":
+					nz++
+				case regexp.MustCompile(`^return \$0\.Status\.Conditions\[.*\]$`).MatchString(r):
+					nc++
+					if !w.RetGuarded(s, G(`+^\$0\.Status\.Conditions\[.*\]\.Type == \$1$`, `+^\$1 == \$0\.Status\.Conditions\[.*\]\.Type$`)) {
+						out = append(out, core.Bad(id, "PROV", "PROV:"+gc, w.InstrPos(s.Ret), "a condition of another type can be returned"))
+					}
+				default:
+					out = append(out, core.Bad(id, "PROV", "PROV:"+gc, w.InstrPos(s.Ret), "GetCondition returns `"+r+"`: a synthesised condition can match a repair policy although the node never reported it"))
+				}
+			}
+			if nz != 1 || nc < 1 {
+				out = append(out, core.Bad(id, "PROV", "PROV:"+gc, w.Pos(fn.Pos()), fmt.Sprintf("expected one empty-condition return and at least one reported-condition return, found %d and %d", nz, nc)))
+			}
+			if len(out) == 0 {
+				out = append(out, core.OK(id, "PROV", "PROV:"+gc, nz+nc, "reported condition of the type, else the empty condition"))
+			}
+			return out
+		}},
+		// garbage collection compares the NodeClaims it listed with a provider snapshot taken *afterwards*: an instance
+		// launched in between is in the snapshot, never the other way round
+		NOREACH{ID: "C16.NR2", Fn: "(*controllers/nodeclaim/garbagecollection.Controller).Reconcile", From: `^call iface:\(cloudprovider\.CloudProvider\)\.List\(\$0\.cloudProvider\)$`,
+			Sink: `^call utils/nodeclaim\.ListManaged\(`, Note: "no NodeClaim listing after the provider snapshot"},
 		// findUnhealthyConditions: a condition is returned only when its status equals the policy's status
 		core.Custom{ID: "C16.DOM5", Kind: "DOM", Run: c16FindUnhealthy},
 		// …and the toleration returned with it is that condition's own policy's: the pair is replaced as a whole
